@@ -441,9 +441,10 @@ pub fn one_case(case: u64, seed: u64, steps: usize, want_sample: bool) -> CaseOu
                 // transmit: exactly the caller's bytes
                 let n0 = dev.borrow().tx_log.len();
                 let which = rng.below(3);
-                let len = match rng.below(5) {
+                let len = match rng.below(8) {
                     0 => 1,
                     1 => 4096,
+                    2 => *rng.pick(&[4095usize, 4097, 5000, 8192, 8193, 20000]),
                     _ => rng.range(1, 200) as usize,
                 };
                 let mut data = vec![0u8; if which == 0 { 1 } else { len }];
@@ -458,8 +459,12 @@ pub fn one_case(case: u64, seed: u64, steps: usize, want_sample: bool) -> CaseOu
                 match r {
                     Ok(Ok(k)) => {
                         let d = dev.borrow();
-                        if k != data.len() || d.tx_log.len() != n0 + 1 || d.tx_log[n0] != data {
-                            fail!("C15", "transmit_bytes_wrong", "send of {} bytes: returned {}, transmit queue received {} chains, bytes equal: {}", data.len(), k, d.tx_log.len() - n0, d.tx_log.get(n0).map(|x| *x == data).unwrap_or(false));
+                        // embedded_io::Write::write may be partial (k <= len, k > 0); the other two send everything.
+                        // However many chains the driver uses, the device must have received exactly the bytes reported as written.
+                        let got: Vec<u8> = d.tx_log[n0..].iter().flat_map(|c| c.iter().copied()).collect();
+                        let k_ok = if which == 2 { k >= 1 && k <= data.len() } else { k == data.len() };
+                        if !k_ok || got != data[..k.min(data.len())] {
+                            fail!("C15", "transmit_bytes_wrong", "send of {} bytes (api {}): reported {} written, transmit queue received {} bytes in {} chains, equal to the reported prefix: {}", data.len(), which, k, got.len(), d.tx_log.len() - n0, got == data[..k.min(data.len())]);
                         }
                     }
                     Ok(Err(e)) => fail!("C15", "send_error", "send failed: {:?}", e),
